@@ -141,6 +141,12 @@ func Run(c *hx.Ctx) {
 			w.ts = o.I64("gt")
 			w.lastInc, w.lastHwm, w.lastDwm, w.crashed, w.refused = 0, 0, 0, false, 0
 			c.Emit("%s", w.start(nil, ""))
+			if !w.dead {
+				// heights below the initial height need no inclusion: the reported height starts at initialHeight-1,
+				// which is the chain height of a node that has not committed yet
+				w.lastInc = w.env.M.GetDAIncludedHeight()
+				w.checkIncBounds("start")
+			}
 		case "produce":
 			e := w.env
 			w.ts += 1_000_000_000
@@ -281,6 +287,7 @@ func Run(c *hx.Ctx) {
 					}
 				}
 				w.lastHwm, w.lastDwm, w.lastInc = hm, dm, inc
+				w.checkIncBounds(o.Verb)
 			}
 		default:
 			c.Emit("bad-op")
@@ -336,7 +343,11 @@ func (w *World) reachable() uint64 {
 
 func (w *World) rhb() string {
 	var out []string
-	for k := uint64(1); k <= w.env.M.GetDAIncludedHeight(); k++ {
+	first := w.env.Options.InitialHeight
+	if first < 1 {
+		first = 1
+	}
+	for k := first; k <= w.env.M.GetDAIncludedHeight(); k++ {
 		out = append(out, fmt.Sprintf("%d:%d:%d", k, w.meta(fmt.Sprintf("rhb/%d/h", k)), w.meta(fmt.Sprintf("rhb/%d/d", k))))
 	}
 	if len(out) == 0 {
@@ -499,6 +510,19 @@ func (w *World) checkRefusal() {
 	}
 }
 
+// checkIncBounds: right after a (re)start the reported DA-included height is at most the chain height and does not
+// claim a height of the chain (>= initial height) that was never reported before
+func (w *World) checkIncBounds(when string) {
+	e := w.env
+	inc := e.M.GetDAIncludedHeight()
+	if inc > e.Height() {
+		w.c.Report("C07/da-included/above-chain-height", fmt.Sprintf("%d > %d after %s", inc, e.Height(), when))
+	}
+	if ih := e.Options.InitialHeight; inc >= ih && inc != w.meta("d") {
+		w.c.Report("C07/da-included/not-persisted", fmt.Sprintf("mem %d disk %d after %s", inc, w.meta("d"), when))
+	}
+}
+
 func (w *World) monitorInclusion(fin []uint64) {
 	c, e := w.c, w.env
 	ctx := context.Background()
@@ -509,7 +533,7 @@ func (w *World) monitorInclusion(fin []uint64) {
 	if inc > e.Height() {
 		c.Report("C07/da-included/above-chain-height", fmt.Sprintf("%d > %d", inc, e.Height()))
 	}
-	if inc != w.meta("d") && inc != 0 {
+	if ih := e.Options.InitialHeight; inc != w.meta("d") && inc != 0 && inc+1 != ih {
 		c.Report("C07/da-included/not-persisted", fmt.Sprintf("mem %d disk %d", inc, w.meta("d")))
 	}
 	// finalize calls: exactly lastInc+1 .. inc, in order
@@ -556,9 +580,13 @@ func (w *World) monitorInclusion(fin []uint64) {
 		}
 	}
 	w.lastInc = inc
-	// eventually: everything whose parts are on the DA layer is reported
+	// eventually: everything whose parts are on the DA layer is reported (heights below the initial height do not exist)
 	all := inc
-	for k := inc + 1; k <= e.Height(); k++ {
+	first := inc + 1
+	if ih := e.Options.InitialHeight; first < ih {
+		first = ih
+	}
+	for k := first; k <= e.Height(); k++ {
 		_, d, err := e.Store.GetBlockData(ctx, k)
 		if err != nil || len(w.onDA("h", k)) == 0 || (len(d.Txs) > 0 && len(w.onDA("d", k)) == 0) {
 			break
@@ -570,7 +598,9 @@ func (w *World) monitorInclusion(fin []uint64) {
 		all = k
 	}
 	if inc < all {
-		if w.crashed {
+		if ih := e.Options.InitialHeight; ih > 1 && inc < ih-1 {
+			c.Report("C07/eventually/initial-height-above-1", fmt.Sprintf("both parts of all blocks %d..%d are on the DA layer and below the watermarks, reported %d: the inclusion loop asks for height %d, which does not exist", ih, all, inc, inc+1))
+		} else if w.crashed {
 			c.Report("C07/eventually/marks-lost-in-crash-restart", fmt.Sprintf("both parts of all blocks up to %d are on the DA layer and below the watermarks, reported %d", all, inc))
 		} else {
 			c.Report("C07/eventually/other", fmt.Sprintf("both parts of all blocks up to %d are on the DA layer, reported %d", all, inc))
